@@ -122,6 +122,9 @@ func (c *Ctx) RunSched(o explore.SchedOpts, keyOf func(v *explore.Violation) str
 		}
 		return nil
 	}
+	if only := os.Getenv("VERIF_ONLY"); only != "" && !strings.Contains(o.Name, only) {
+		return nil // debugging aid: run the scenarios whose name contains VERIF_ONLY
+	}
 	o.Deadline = c.Deadline
 	st := explore.Sched(o)
 	r := c.Rep
@@ -184,6 +187,39 @@ func tail(s []string, n int) []string {
 		return s
 	}
 	return s[len(s)-n:]
+}
+
+// RunSchedRace is RunSched for the race oracle: a race report is produced by
+// the first execution that exhibits the two accesses and never again, so the
+// violation is not re-executed; the report text goes into the replay file.
+func (c *Ctx) RunSchedRace(o explore.SchedOpts, keyOf func(v *explore.Violation) (string, string)) *explore.SchedStats {
+	if c.Replay != nil {
+		return c.RunSched(o, func(v *explore.Violation) string { k, _ := keyOf(v); return k })
+	}
+	o.Deadline = c.Deadline
+	st := explore.Sched(o)
+	r := c.Rep
+	r.Scenarios++
+	r.Executions += int64(st.Executions)
+	r.Pruned += int64(st.Pruned)
+	r.States += int64(st.States)
+	r.Transitions += int64(st.Transitions)
+	if st.MaxDepth > r.MaxDepth {
+		r.MaxDepth = st.MaxDepth
+	}
+	if !st.Exhaustive {
+		r.Exhaustive = false
+		r.AddCap(st.CapHit)
+	}
+	for k, v := range st.Outcomes {
+		r.Outcomes[k] += v
+	}
+	if st.Violation != nil {
+		v := st.Violation
+		key, report := keyOf(v)
+		c.Violate(key, Replay{Scenario: v.Scenario, Message: v.Message, Choices: v.Choices, Log: strings.Split(report, "\n"), Parked: parked(v.Parked)})
+	}
+	return &st
 }
 
 // WriteReport stores the worker's report.
